@@ -277,6 +277,114 @@ def make_harness(shapes, method_sets):
     return harness
 
 
+def _leaf_rule(v: int, variant: int) -> str:
+    k = (v + variant) % 4
+    return ["drop", "rewrite", "same", "neg"][k]
+
+
+def _ref_reuse(recipe, variant):
+    """Expected result of the rule set of reuse_harness on a recipe, as a nested description;
+    None = removed."""
+    cls, props, _o, _k = recipe
+    if cls == "VLeaf":
+        v = dict(props)["v"]
+        how = _leaf_rule(v, variant)
+        if how == "drop":
+            return None
+        if how == "rewrite":
+            return ("VLeaf", v + 100)
+        if how == "neg":
+            return ("VReq", ("VLeaf", -v))
+        return ("VLeaf", v)
+    out = [cls]
+    for fname, idx, crec in kids_of(recipe):
+        out.append((fname, idx, _ref_reuse(crec, variant)))
+    # tuple elements that were removed disappear (later ones move up); single fields become None
+    kids = []
+    counters: dict[str, int] = {}
+    for fname, idx, res in out[1:]:
+        if idx is None:
+            kids.append((fname, None, res))
+        elif res is not None:
+            kids.append((fname, counters.get(fname, 0), res))
+            counters[fname] = counters.get(fname, 0) + 1
+    return (cls, tuple(kids))
+
+
+def _describe_result(n):
+    if n is None:
+        return None
+    if type(n).__name__ == "VLeaf":
+        return ("VLeaf", n.v)
+    if type(n).__name__ == "VReq" and type(n.child).__name__ == "VLeaf" and n.child.v < 0:
+        return ("VReq", ("VLeaf", n.child.v))
+    kids = []
+    for f in dataclasses.fields(n):
+        if f.name in ("id", "content_id", "origin", "v"):
+            continue
+        val = getattr(n, f.name)
+        if isinstance(val, tuple):
+            kids.extend((f.name, i, _describe_result(c)) for i, c in enumerate(val))
+        elif val is None or hasattr(val, "content_id"):
+            kids.append((f.name, None, _describe_result(val)))
+    return (type(n).__name__, tuple(kids))
+
+
+def reuse_harness(e):
+    """One visitor OBJECT used for many transforms: earlier inputs are dropped (their memory is
+    reused by later inputs) while the outputs stay alive.  Each result must be the rewrite of
+    its own input."""
+    import gc
+
+    from models.zoo import VReq
+    from pyoak.visitor import ASTTransformVisitor
+
+    reset_all()
+    variant = e.choice(4, "rule_variant")
+    strict = e.flag("strict")
+    keep_inputs = e.flag("inputs_kept_alive")
+
+    class Rules(ASTTransformVisitor):
+        def visit_VLeaf(self, node):
+            how = _leaf_rule(node.v, variant)
+            if how == "drop":
+                return None
+            if how == "rewrite":
+                return dataclasses.replace(node, v=node.v + 100)
+            if how == "neg":
+                return VReq(child=dataclasses.replace(node, v=-node.v))
+            return node
+
+    Rules.strict = strict
+    visitor = Rules()
+    L = lambda v: R("VLeaf", {"v": v})  # noqa: E731
+    outs, inputs = [], []
+    for rnd in range(40):
+        a, b, c = 1 + rnd % 7, 2 + (rnd * 3) % 5, 3 + (rnd * 5) % 11
+        recipe = [
+            R("VMany", items=(L(a), R("VReq", child=L(b)), L(c))),
+            R("VMixed", {"v": rnd}, first=L(a), items=(L(b), L(c)), one=L(a + b)),
+            R("VReq", child=R("VMany", items=(L(a), L(b), R("VOne", one=L(c))))),
+            R("VMany", items=(R("VMany", items=(L(c), L(a))), L(b))),
+        ][rnd % 4]
+        root = build(recipe)
+        out = visitor.transform(root)
+        want = _ref_reuse(recipe, variant)
+        got = _describe_result(out)
+        if got != want:
+            e.fail("result-is-not-the-rewrite-of-its-own-input:visitor-object-reused", scenario={"round": rnd, "tree": describe(recipe), "rule_variant": variant, "strict": bool(strict), "inputs_kept_alive": bool(keep_inputs), "got": repr(got)[:400], "expected": repr(want)[:400]})
+        if want == _describe_result(root) and out is not root:
+            e.fail("unchanged-tree-not-returned-as-itself:visitor-object-reused", scenario={"round": rnd, "tree": describe(recipe), "rule_variant": variant})
+        outs.append(out)
+        if keep_inputs:
+            inputs.append(root)
+        root = out = None
+        if rnd % 8 == 7:
+            gc.collect()
+    e.distinct((variant, bool(strict), bool(keep_inputs)))
+    return {"rule_variant": variant, "strict": bool(strict), "inputs_kept_alive": bool(keep_inputs)}
+
+
 def spec(tier: str, seed: int) -> Spec:
     wide = [number(R("VMany", items=(R("VFalsy"), R("VLeaf"), R("VFalsy")))), number(R("VMixed", first=R("VFalsy"), items=(R("VFalsy"),), one=R("VFalsy"))), number(R("VReq", child=R("VMany", items=(R("VLeaf"), R("VFalsy"))))),
             number(R("VMany", items=(R("VLeaf"), R("VSubLeaf"), R("VLeaf")))), number(R("VMixed", first=R("VLeaf"), items=(R("VLeaf"), R("VLeaf")), one=R("VLeaf"))), number(R("VInh", first=R("VLeaf"), items=(R("VLeaf"),), one=None, extra=R("VMany", items=(R("VLeaf"),))))]
@@ -295,6 +403,7 @@ def spec(tier: str, seed: int) -> Spec:
         R("VMixed", first=R("VDiamond"), items=(R("VMixLeaf"),), one=R("VMixLeaf")),
         R("VMany", items=(R("VDiamond"), R("VReq", child=R("VLateMix")))),
     )]
+    fams.append(Family("visitor-object-reused", reuse_harness, variables="selectors: rule variant, strict, whether earlier inputs stay alive; 40 transforms by one visitor object per path"))
     fams.append(Family("mixin-in-mro", make_harness(mixed, ["base-class-only", "leaf-class-only", "root-class-only", "sub-leaf-and-leaf", "own-classes"]), variables=var + "; classes with a non-node mixin before / after the node base, and a diamond"))
     return Spec(
         families=fams,
